@@ -10,11 +10,13 @@
       position i of the bind list), the unnamed groups skipped — and leaves the tree as it was.
 -/
 import Flamego.Gen.RegexTreeCode
+import Flamego.Gen.HoleTreeCode
 import Flamego.Model.Tree
 set_option linter.unusedSimpArgs false
 set_option linter.unusedVariables false
 namespace Flamego.C02TreeCode
 open Flamego.GoSem Flamego.Gen.RegexTreeCode
+variable (E : Engine)
 
 theorem mapSet_eq_set (ps : Params) (k v : Bytes) : GoSem.mapSet ps k v = ps.set k v := by
   induction ps with
@@ -91,5 +93,16 @@ example :
                         find := fun _ s => if s = [55, 45, 97, 99] then some [[55, 45, 97, 99], [55], [97, 99], [97]] else none }
     («match» E { baseTree := (), regexp := [94], binds := [[105, 100], [107], []] } [55, 45, 97, 99] []).1
       = (true, [([105, 100], [55]), ([107], [97, 99])]) := by decide
+
+/-! ### `placeholderTree` (Gen/HoleTreeCode.lean) -/
+
+/-- a placeholder subtree takes the whole segment — whatever it is — under its bind, and names exactly that bind -/
+theorem hole_match_refines (t : Gen.HoleTreeCode.placeholderTree) (seg : Bytes) (ps : Params) :
+    (Gen.HoleTreeCode.«match» t seg ps).1 = (true, ps.set t.bind seg)
+      ∧ (Gen.HoleTreeCode.«match» t seg ps).2 = t
+      ∧ treeMatch E (.hole t.bind) seg ps = some (ps.set t.bind seg)
+      ∧ (Gen.HoleTreeCode.getBinds t).1 = (Pat.hole t.bind).binds := by
+  refine ⟨?_, rfl, rfl, rfl⟩
+  simp [Gen.HoleTreeCode.«match», mapSet_eq_set]
 
 end Flamego.C02TreeCode
